@@ -381,9 +381,9 @@ func tokenize(s string) []string {
 
 // SolverPool hands out one solver per worker; optionally diffing against others.
 type SolverSet struct {
-	Primary *Solver
-	Others  []*Solver // differential oracles
-	mu      sync.Mutex
+	Primary       *Solver
+	Others        []*Solver // differential oracles
+	mu            sync.Mutex
 	Disagreements []string
 }
 
